@@ -5,8 +5,11 @@ indent 0-28, tab offset 0-3, optional italics attribute) + items (basic / specia
 mid-row italics / plain, backspace); control codes single or doubled (PAC + tab offset doubled as a unit).
 The code words are produced by the Coq emitter (request 501, from spec/Spec608.v, independent of pycaption's tables).
 Streams:
-  A  table sweep: every one of the 15 x 8 x 4 cursor addresses, every basic / special / extended character
-     (first, middle, last position), every row with the italics preamble; single and doubled   (deterministic)
+  A  table sweep (deterministic, single and doubled): every one of the 15 x 8 x 4 cursor addresses; every preamble
+     style of every row (7 colours x underline, italics, italics underline; underline bit of the indent preambles)
+     followed by a plain row; every one of the 16 mid-row codes with italics off and on; every basic / special /
+     extended character in first, middle, last position; backspace after every basic, special and extended character;
+     extended after extended
   B  random programs: 1-4 loads of 1-4 rows
   C  random code-word soups (any order of any code class): decoder-model correspondence only
 Observation (public API): SCCReader().read(stream) -> captions: times, nodes (text / break / italics), layout.
@@ -64,10 +67,10 @@ def rand_items(rng, maxlen):
         elif r < 0.88:
             if cells + 1 >= n and not last:
                 continue
-            items.append([3] if rng.random() < 0.6 else [4])
+            items.append([3, rng.choice([14, 14, 14, 15, 15, 0, 0, 1, rng.randint(0, 15)])])
             prev = "mid"
             cells += 1
-        elif r < 0.93 and prev == "ch" and cells + 1 < n:
+        elif r < 0.94 and (prev in ("ch", "ext") or isinstance(prev, tuple)) and cells + 1 < n:
             items.append([5])
             prev = "bs"
             cells -= 1
@@ -88,10 +91,13 @@ def rand_program(rng):
             rows = rng.sample(range(1, 16), nrows)
         load = []
         for r in rows:
-            ital = rng.random() < 0.15
-            indent = 0 if ital else rng.choice([0, 0, 4, 8, 12, 16, 20, 24, 28])
+            indent = rng.choice([0, 0, 0, 4, 8, 12, 16, 20, 24, 28])
+            if indent == 0:
+                style = rng.choice([0, 0, 0, 0, 1, 14, 14, 15, 15, rng.randint(2, 13)])
+            else:
+                style = rng.choice([0, 0, 0, 1])
             tab = rng.choice([0, 0, 0, 1, 2, 3])
-            load.append([r, indent, tab, ital, rand_items(rng, 32 - indent - tab)])
+            load.append([r, indent, tab, style, rand_items(rng, 32 - indent - tab)])
         loads.append(load)
     return [doubled, loads]
 
@@ -102,20 +108,59 @@ def sweep_programs():
         for r in range(1, 16):
             for ind in range(0, 32, 4):
                 for tab in range(4):
-                    out.append([doubled, [[[r, ind, tab, False, text_items("Ab")]]]])
-            out.append([doubled, [[[r, 0, 0, True, text_items("it")]]]])
-            out.append([doubled, [[[r, 0, 2, True, text_items("it") + [[4]] + text_items("pl")]]]])
+                    out.append([doubled, [[[r, ind, tab, 0, text_items("Ab")]]]])
+                if ind:                                           # underline bit of the indent preambles
+                    out.append([doubled, [[[r, ind, 0, 1, text_items("un")]]]])
+            for style in range(16):                               # every colour / underline / italics preamble
+                load = [[r, 0, 0, style, text_items("st")]]
+                if r < 15:
+                    load.append([r + 1, 0, 0, 0, text_items("pl")])   # a plain preamble on the next row ends italics
+                out.append([doubled, [load]])
+            out.append([doubled, [[[r, 0, 2, 15, text_items("it") + [[3, 0]] + text_items("pl")]]]])
+        for a in range(16):                                       # every mid-row code, italics off and on before it
+            out.append([doubled, [[[15, 0, 0, 0, text_items("ab") + [[3, a]] + text_items("cd") + [[3, 0]] + text_items("ef")]]]])
+            out.append([doubled, [[[14, 0, 0, 14, text_items("ab") + [[3, a]] + text_items("cd")],
+                                   [15, 4, 0, 0, text_items("gh")]]]])
         for c in BASIC:
             if c != " ":
-                out.append([doubled, [[[15, 0, 0, False, [ch(c)] + text_items("mid") + [ch(c)] + text_items("x") + [ch(c)]]]]])
+                out.append([doubled, [[[15, 0, 0, 0, [ch(c)] + text_items("mid") + [ch(c)] + text_items("x") + [ch(c)]]]]])
+                out.append([doubled, [[[12, 0, 0, 0, text_items("Hi") + [ch(c), [5]] + text_items("BC")]]]])
         for i in range(16):
             if i != 9:
-                out.append([doubled, [[[14, 4, 0, False, [[1, i]] + text_items("ab") + [[1, i]] + text_items("c") + [[1, i]]]]]])
+                out.append([doubled, [[[14, 4, 0, 0, [[1, i]] + text_items("ab") + [[1, i]] + text_items("c") + [[1, i]]]]]])
+                out.append([doubled, [[[12, 0, 0, 0, text_items("Hi") + [[1, i], [5]] + text_items("BC")]]]])
         for grp in range(2):
             for i in range(32):
                 e = [2, ord("e"), grp, i]
-                out.append([doubled, [[[13, 0, 1, False, [e] + text_items("ab") + [e] + text_items("c") + [e]]]]])
+                out.append([doubled, [[[13, 0, 1, 0, [e] + text_items("ab") + [e] + text_items("c") + [e]]]]])
+                out.append([doubled, [[[12, 0, 0, 0, text_items("Hi") + [[2, ord("A"), grp, i], [5]] + text_items("BC")]]]])
+                out.append([doubled, [[[11, 0, 0, 0, text_items("Hi") + [e, [2, ord("A"), grp, i]] + text_items("BC")]]]])
     return out
+
+
+def mid_on_empty_after_full(prog):
+    """lc_ok8 of proofs/SccPoponStage8.v beyond dom_c05: a row filling its 32 cells is directly followed by a row in which
+    a mid-row code arrives while the row shows no character yet (first item, after other mid-row codes, or after a
+    backspace emptied the row): the reader appends the code's blank to the previous text, which trips the length check"""
+    def cells_and_flag(items):
+        acc, flag = [], False
+        for it in items:
+            if it[0] == 3:
+                if not any(c == "cell" for c in acc):
+                    flag = True
+                acc.append("opt")
+            elif it[0] == 5:
+                if acc:
+                    acc.pop()
+            else:
+                acc.append("cell")
+        return len(acc), flag
+    for load in prog[1]:
+        info = [cells_and_flag(r[4]) for r in load]
+        for (n, _), (_, flag) in zip(info, info[1:]):
+            if n >= 32 and flag:
+                return True
+    return False
 
 
 def build_stream(prog, words, clear, rng=None):
@@ -174,7 +219,7 @@ def run(ctx):
     obs = [sccobs.observe(c[4]) for c in cases]
     models = sccobs.model_batch([(c[4], 0) for c in cases])
     oks = oracle_batch([(502, [c[1], wire_obs(o)]) for c, o in zip(cases, obs)])
-    names = {0: "ch", 1: "sp", 2: "ext", 3: "mid", 4: "mid", 5: "bs"}
+    names = {0: "ch", 1: "sp", 2: "ext", 3: "mid", 5: "bs"}
     for (kind, p, dom, indep, stream), o, m, ok in zip(cases, obs, models, oks):
         res["evaluations"] += 1
         dist["doubled"] += p[0]
@@ -191,18 +236,18 @@ def run(ctx):
         if not dom:
             dist["out_of_domain"] += 1
             continue
+        if mid_on_empty_after_full(p):
+            dist["mid_on_empty_after_full_row_excluded"] = dist.get("mid_on_empty_after_full_row_excluded", 0) + 1
+            continue
         if sum(len(l) for l in p[1]) >= 2 or kind == "sweep":
             res["nontrivial"].add(stream)
         if not indep:
             dist["tracker_leak_shape"] += 1
         if ok != 1:
             res["violations"].append({
-                "kind": "tracker-leak" if not indep else "screen-mismatch", "replay": "program",
-                "what": ("a load whose first row equals / is one below the last row addressed by the previous load is "
-                         "positioned (or broken) relative to the previous caption (position tracker not reset)"
-                         if not indep else
-                         "the captions read differ from the CEA-608 screen of the program (characters, lines, italics, "
-                         "position or grouping)"),
+                "kind": "screen-mismatch", "replay": "program",
+                "what": "the captions read differ from the CEA-608 screen of the program (characters, lines, italics, "
+                        "position or grouping)",
                 "input": p, "program": p, "stream": stream, "impl_obs": show(o)})
     # C: soups - decoder model vs implementation only
     soups = [sccsoup.soup(rng) for _ in range(ctx.n(1500, 40000))]
